@@ -71,7 +71,7 @@ Theorem C28_undo_succ_restores : forall (c : cols) (ins : list sins),
 Proof. exact undo_succ_restores. Qed.
 Example C28_undo_succ_nonvacuous :
   let c := mkCols [0; 1; 0] [true; true; true] [Some 1; Some 1; Some 1] [false; false; true] [((9, [1]), Some 2%Z)] in
-  let ins := [mkSI (12, [2]) 1 (Some 3%Z) 1 1; mkSI (12, [2]) 2 None 0 1] in
+  let ins := [mkSI (12, [2]) 1 (Some 3%Z) 1 1 (Some 1); mkSI (12, [2]) 2 None 0 1 (Some 1)] in
   NoDup (map si_pos ins) /\ (forall i, In i ins -> wf_ins c i) /\
   exists c' us, add_succ_with_undo c ins = Ok (c', us) /\
     c_vis c' = [true; true; false] /\ c_top c' = [false; true; false] /\ c_cnt c' = [0; 2; 1].
